@@ -161,6 +161,66 @@ Section Live.
     - unfold consumed in Hc. apply Nat.eqb_eq in Hc. pose proof (iB _ _ _ _ HI). lia.
   Qed.
 
+
+  (** * once everything has been read and handed out, the pipeline only winds down *)
+  Definition calm_op (o : mop) : Prop :=
+    match o with
+    | Restart | KillQ | JoinQ | KillC _ | JoinC _ => False
+    | HbHarvest r | HbReadC r => r = true
+    | _ => True
+    end.
+  (** the reader is done, the pool is fully handed out, and no heartbeat in flight still holds a
+      stale "reader not done" *)
+  Definition calm (s : st) : Prop := rdone s = true /\ consumed s = true /\ Forall calm_op (pc s).
+
+  Lemma idle_done_calm s : pc s = [] -> rdone s = true -> consumed s = true -> calm s.
+  Proof. intros Hp Hr Hc. unfold calm. rewrite Hp. auto. Qed.
+
+  Definition internal (l : label) : Prop := match l with LQuery _ | LCmd _ => False | _ => True end.
+
+  (** no keystroke: the pool, the taken mark's completeness and the reader state stay as they are,
+      and the matcher is never restarted *)
+  Theorem calm_step s l s' :
+    calm s -> internal l -> step s l = Some s' -> calm s' /\ pl s' = pl s /\ resv s' = resv s.
+  Proof.
+    intros (Hr & Hc & Hp) Hi Hs. unfold calm.
+    assert (Hal : alive s = false) by (unfold rdone in Hr; destruct (alive s); [discriminate|reflexivity]).
+    destruct l; try destruct Hi; cbn in Hs.
+    - rewrite Hal in Hs. discriminate.
+    - rewrite Hal in Hs. discriminate.
+    - unfold step_matcher in Hs. destruct (mt s) as [m|]; [|discriminate]. destruct (ph m); try discriminate. inversion Hs; subst; cbn; auto.
+    - unfold step_matcher in Hs. destruct (mt s) as [m|]; [|discriminate]. destruct (ph m); try discriminate. destruct (locked s); [discriminate|].
+      inversion Hs; subst; cbn. repeat split; auto. unfold consumed. cbn. rewrite Nat.sub_diag. reflexivity.
+    - unfold step_matcher in Hs. destruct (mt s) as [m|]; [|discriminate]. destruct (ph m); try discriminate. inversion Hs; subst; cbn; auto.
+    - unfold step_matcher in Hs. destruct (mt s) as [m|]; [|discriminate]. destruct (ph m); try discriminate. inversion Hs; subst; cbn; auto.
+    - unfold step_matcher in Hs. destruct (mt s) as [m|]; [|discriminate]. destruct (ph m); try discriminate. inversion Hs; subst; cbn; auto.
+    - unfold step_matcher in Hs. destruct (mt s) as [m|]; [|discriminate]. destruct (ph m); try discriminate. inversion Hs; subst; cbn; auto.
+    - destruct (linger s); [|discriminate]. inversion Hs; subst; cbn; auto.
+    - destruct (timer s); [|discriminate]. inversion Hs; subst; cbn; auto.
+    - unfold exec_main in Hs. destruct (pc s) as [|op rest] eqn:Hpc; [discriminate|].
+      inversion Hp as [|? ? P1 P2]; subst.
+      destruct op as [ |sv|r|r| | |c|c r| | |sr|sr]; cbn in P1; try contradiction.
+      + inversion Hs; subst; cbn. repeat split; auto; try (constructor; [exact I|exact P2]).
+      + inversion Hs; subst; cbn. repeat split; auto. destruct sv; cbn; repeat (constructor; auto).
+      + destruct (mt s) as [m|]; [|discriminate]. destruct (flag m); [|discriminate]. inversion Hs; subst; cbn. auto.
+      + subst r. inversion Hs; subst; cbn. cbn [andb]. rewrite Hc. cbn. repeat split; auto; try (constructor; [exact I|exact P2]).
+      + inversion Hs; subst; cbn. repeat split; auto; try (constructor; [exact I|exact P2]).
+      + inversion Hs; subst; cbn. repeat split; auto; try (constructor; [exact I|exact P2]).
+      + destruct (negb (f1 s || f0 s || fsync s)); [inversion Hs; subst; cbn; auto|].
+        destruct (r && c && match mt s with None => true | Some _ => false end); inversion Hs; subst; cbn; auto.
+    - destruct (pc s); [|discriminate]. inversion Hs; subst; cbn. repeat split; auto; try (constructor; [exact I|constructor]).
+  Qed.
+
+  Theorem calm_run ls : forall s s',
+    calm s -> Forall internal ls -> run s ls = Some s' -> calm s' /\ pl s' = pl s /\ resv s' = resv s.
+  Proof.
+    induction ls as [|l ls IH]; cbn; intros s s' Hc Hi Hr.
+    - inversion Hr; subst. auto.
+    - inversion Hi as [|? ? Hl Hls]; subst. destruct (step s l) as [s1|] eqn:Hs; [|discriminate].
+      destruct (calm_step _ _ _ Hc Hl Hs) as (Hc1 & Hp1 & Hr1).
+      destruct (IH _ _ Hc1 Hls Hr) as (Hc2 & Hp2 & Hr2). split; [exact Hc2|]. split; congruence.
+  Qed.
+
   (** * finality of the decision *)
   Definition flags_off (s : st) : Prop := f1 s = false /\ f0 s = false /\ fsync s = false.
   Definition Finv (s : st) : Prop := decided s = Some Interactive -> flags_off s.
